@@ -77,3 +77,39 @@ package lintcmd
 //@   loop 2   invariant [current]  forall k diagnosticDescriptor :: {r.diagnostics[k]} (k in seen) && keepMerged(runs, r.diagnostics[k]) ==> occursIn(relevantDiagnostics, r.diagnostics[k])
 //@   loop 3   index j
 //@   loop 3   invariant [all] doPrint == (forall q int :: {runs[q]} 0 <= q && q < j && (diag.Position.Filename in runs[q].checkedFiles) ==> (diag.descriptor() in runs[q].diagnostics))
+
+//@ prop C17
+
+//@ extern path/filepath.Base(path string) string
+//@   pure
+
+// The identity under which the verdicts of the variants of a package (with and without tests)
+// are merged: both the Used and the Unused lists must be keyed the same way.
+//@ ghost keyOf(pkgPath string, obj unused.Object) unusedKey = mk(unusedKey, pkgPath, filepath.Base(obj.Position.Filename), obj.Position.Line, obj.Name)
+
+// "an object is reported only if it is unused in every variant": after all results were scanned,
+// exactly the collected unused objects whose key was not marked used by ANY result are reported.
+//@ ghost isUsed(used map[unusedKey]bool, k unusedKey) bool = (k in used) && used[k]
+//@ ghost nrep(unuseds []unusedPair, used map[unusedKey]bool, x int) int = x <= 0 ? 0 : nrep(unuseds, used, x-1) + (isUsed(used, unuseds[x-1].key) ? 0 : 1)
+//@ lemma nrep_mono(unuseds []unusedPair, used map[unusedKey]bool, a int, b int)
+//@   requires 0 <= a && a < b
+//@   ensures  nrep(unuseds, used, a) + (isUsed(used, unuseds[a].key) ? 0 : 1) <= nrep(unuseds, used, b) && 0 <= nrep(unuseds, used, a)
+//@   induct   b
+//@   trigger  nrep(unuseds, used, a), nrep(unuseds, used, b)
+
+//@ func (*linter).lint
+//@   uses     nrep_mono
+//@   modifies heap
+//@   may_panic
+//@   nosafe   all
+//@   loop 4   invariant [nonnil]  used != nil
+//@   loop 6   index ju
+//@   loop 6   invariant [nonnil]  used != nil
+//@   loop 6   invariant [usedkey] forall j int :: {resd.Unused.Used[j]} 0 <= j && j < ju ==> (keyOf(res.Package.PkgPath, resd.Unused.Used[j]) in used) && used[keyOf(res.Package.PkgPath, resd.Unused.Used[j])]
+//@   loop 7   index jn
+//@   loop 7   invariant [nonnil]  used != nil
+//@   loop 7   invariant [unusedkey] len(unuseds) == len(loopentry(unuseds)) + jn && (forall j int :: {resd.Unused.Unused[j]} 0 <= j && j < jn ==> unuseds[len(loopentry(unuseds)) + j].key == keyOf(res.Package.PkgPath, resd.Unused.Unused[j]) && unuseds[len(loopentry(unuseds)) + j].obj == resd.Unused.Unused[j])
+//@   loop 8   index xu
+//@   loop 8   invariant [count]    len(out.Diagnostics) == len(loopentry(out.Diagnostics)) + nrep(unuseds, used, xu)
+//@   loop 8   invariant [reported] forall x int :: {unuseds[x]} 0 <= x && x < xu && !isUsed(used, unuseds[x].key) ==> out.Diagnostics[len(loopentry(out.Diagnostics)) + nrep(unuseds, used, x)].Position == unuseds[x].obj.DisplayPosition && out.Diagnostics[len(loopentry(out.Diagnostics)) + nrep(unuseds, used, x)].Category == "U1000" && out.Diagnostics[len(loopentry(out.Diagnostics)) + nrep(unuseds, used, x)].MergeIf == lint.MergeIfAll
+//@   loop 7   invariant [usedtrue] forall k unusedKey :: {used[k]} (k in loopentry(used)) && loopentry(used)[k] ==> (k in used) && used[k]
